@@ -333,12 +333,19 @@ class Session:
 PORTFOLIO = [({}, 0.2), ({"smt.random_seed": 7}, 0.2), ({"smt.mbqi": False, "auto_config": False}, 0.2), ({"smt.random_seed": 23, "smt.arith.nl": True}, 0.4)]
 
 
-def _solve_z3(hyps, goal, timeout_ms):
+def _solve_z3(hyps, goal, timeout_ms, early_cvc5=False):
     """small portfolio: the same query under a few solver configurations (slow queries are the unstable ones;
-    a verdict is only taken from a configuration that decides: unsat from any, sat only with MBQI on)"""
+    a verdict is only taken from a configuration that decides: unsat from any, sat only with MBQI on).  With early_cvc5 the other solver gets a
+    short turn right after z3's first configuration gave up: the queries it decides it decides in a second or two, and the verdict then does
+    not depend on z3 running out its whole budget first (which is what flips under load)"""
     total = 0.0
     last = None
-    for opts, share in PORTFOLIO:
+    for n_cfg, (opts, share) in enumerate(PORTFOLIO):
+        if n_cfg == 1 and early_cvc5 and last is not None:
+            r2, dt2 = _solve_cvc5(last, min(8000, max(3000, int(timeout_ms * 0.3))))
+            total += dt2
+            if r2 == "unsat":
+                return "cvc5-unsat", None, total, "", last
         s = z3.Solver()
         s.set("timeout", max(1000, int(timeout_ms * share)))
         for k, v in opts.items():
@@ -470,11 +477,13 @@ def _discharge(ob, timeout_ms=None, use_cvc5=True):
         sd.add(z3.Not(ob.goal))
         with open(os.path.join(os.environ["PYVC_DUMP_DIR"], ob.id.replace("/", "_") + ".smt2"), "w") as fd:
             fd.write(sd.to_smt2())
-    r, model, dt, reason, solver = _solve_z3(ob.hyps, ob.goal, timeout_ms)
+    r, model, dt, reason, solver = _solve_z3(ob.hyps, ob.goal, timeout_ms, early_cvc5=use_cvc5)
     ob.candidate = _CANDIDATE[0]
     ob.solver_s = dt
     ob.backend = "z3-" + z3.get_version_string()
-    if r == z3.unsat:
+    if isinstance(r, str) and r == "cvc5-unsat":
+        ob.result, ob.backend = "proved", "cvc5-1.0.3"
+    elif r == z3.unsat:
         ob.result = "proved"
     elif r == z3.sat:
         ob.result = "failed"
